@@ -110,8 +110,11 @@ def gen_doc(r: Any, without_list: bool) -> Any:
             if r.random() < 0.08:
                 sc.pop("scope")
             scopes.append(sc)
-        g: dict[str, Any] = {"resource": {"attributes": rattrs}, "scope_spans": scopes}
-        if r.random() < 0.06:
+        # older exporters put the scope groups under another key: the same array name `spans` then sits under two
+        # different parents
+        g: dict[str, Any] = {"resource": {"attributes": rattrs},
+                             ("scope_spans" if r.random() < 0.75 else "instrumentation_library_spans"): scopes}
+        if r.random() < 0.06 and "scope_spans" in g:
             g["scope_spans"] = r.choice([None, []])
         if r.random() < 0.05:
             g.pop("resource")
@@ -134,11 +137,14 @@ def gen_alt(r: Any, field: str, rs: str) -> dict[str, Any]:
         "start_timestamp": "start_time_unix_nano", "end_timestamp": "end_time_unix_nano",
         "job_name": "name", "application_name": "name",
     }
-    kind = r.choice(["plain", "plain", "span_attr", "res_attr", "scope", "missing"])
+    kind = r.choice(["plain", "plain", "span_attr", "res_attr", "scope", "missing", "old_layout"])
     if field in ("start_timestamp", "end_timestamp", "event_id", "parent_event_id") and r.random() < 0.8:
         kind = "plain"
     if kind == "plain":
         return {"kp": span + plain[field], "kv": None, "vp": None}
+    if kind == "old_layout":
+        # the same leaf through the older layout: `spans` below another parent
+        return {"kp": f"{rs}instrumentation_library_spans.[].{SP}.[]." + plain[field], "kv": None, "vp": None}
     if kind == "span_attr":
         key = r.choice(["http.method", "http.response", "app.service", "nope"])
         return {"kp": span + "attributes.[].key", "kv": key,
@@ -154,6 +160,7 @@ def gen_alt(r: Any, field: str, rs: str) -> dict[str, Any]:
 def gen_mapping(r: Any, without_list: bool) -> list[dict[str, Any]]:
     rs = f"{RS}." if without_list else f"{RS}.[]."
     m = []
+    both_layouts = r.random() < 0.3   # every span-level field falls back to the older layout
     fields = list(FIELDS)
     if r.random() < 0.3:
         r.shuffle(fields)  # the order of fields decides variable allocation
@@ -162,7 +169,11 @@ def gen_mapping(r: Any, without_list: bool) -> list[dict[str, Any]]:
         parts = []
         for _ in range(nparts):
             nalt = r.choice([1, 1, 1, 2, 3])
-            parts.append([gen_alt(r, f, rs) for _ in range(nalt)])
+            alts = [gen_alt(r, f, rs) for _ in range(nalt)]
+            if both_layouts and alts[0]["kv"] is None and SP in alts[0]["kp"] and "instrumentation" not in alts[0]["kp"]:
+                alts.append({"kp": alts[0]["kp"].replace(f"{SS}.[].", "instrumentation_library_spans.[]."),
+                             "kv": None, "vp": None})
+            parts.append(alts)
         m.append({"name": f, "array": False, "parts": parts})
     if r.random() < 0.6:
         span = f"{rs}{SS}.[].{SP}.[]."
@@ -392,10 +403,12 @@ def ref_validate(rec: dict[str, Any]) -> dict[str, Any] | None:
     for k in ("start_timestamp", "end_timestamp"):
         v = rec.get(k)
         if isinstance(v, str):
-            try:
-                v = int(v)
-            except ValueError:
+            # pydantic's lax str -> int: white space, sign, underscores between digits, a fraction of zeros
+            import re as _re
+            m = _re.fullmatch(r"\s*([+-]?)(\d+(?:_\d+)*)(?:\.0+)?\s*", v)
+            if not m:
                 return None
+            v = int(m.group(2).replace("_", "")) * (-1 if m.group(1) == "-" else 1)
         if not isinstance(v, int) or isinstance(v, bool):
             return None
         out[k] = str(v)
